@@ -6,6 +6,11 @@
 //@   rule R0
 //@ end
 
+// Specification vocabulary and its lemmas live in a module of their own: the crate-level `broadcast use` below
+// must not apply to the termination/proof obligations of the very definitions the broadcast lemma is about.
+pub mod collector_spec {
+use super::*;
+
 // One recorded assertion: (message, ok).
 pub type Entry = (Seq<char>, bool);
 
@@ -18,16 +23,6 @@ pub open spec fn all_ok(e: Seq<Entry>) -> bool {
 // (" - OK: ", " - NOT OK: ", "\n") are part of the stub.  The stub bodies are the original `format!` calls.
 pub uninterp spec fn spec_fmt_ok(counter: i32, msg: Seq<char>) -> Seq<char>;
 pub uninterp spec fn spec_fmt_not_ok(counter: i32, msg: Seq<char>) -> Seq<char>;
-
-#[verifier::external_body]
-pub fn verif_fmt_ok(counter: i32, msg: &str) -> (r: String)
-    ensures r@ == spec_fmt_ok(counter, msg@)
-{ format!("{} - OK: {}\n", counter, msg) }
-
-#[verifier::external_body]
-pub fn verif_fmt_not_ok(counter: i32, msg: &str) -> (r: String)
-    ensures r@ == spec_fmt_not_ok(counter, msg@)
-{ format!("{} - NOT OK: {}\n", counter, msg) }
 
 // The log line of the k-th recorded assertion (k counts from 0).
 pub open spec fn line_of(k: int, x: Entry) -> Seq<char> {
@@ -53,16 +48,9 @@ pub open spec fn failures_of(e: Seq<Entry>) -> Seq<char>
     }
 }
 
-// Representation relation: collector `c` holds exactly the entries `e`.
-pub open spec fn repr(c: AssertCollector, e: Seq<Entry>) -> bool {
-    &&& c.counter == e.len()
-    &&& c.success == all_ok(e)
-    &&& c.summary@ =~= summary_of(e)
-    &&& c.failures@ =~= failures_of(e)
-}
-
-pub proof fn lemma_entries_push(e: Seq<Entry>, x: Entry)
+pub broadcast proof fn lemma_entries_push(e: Seq<Entry>, x: Entry)
     ensures
+        #![trigger e.push(x)]
         summary_of(e.push(x)) == summary_of(e) + line_of(e.len() as int, x),
         failures_of(e.push(x)) == (if x.1 { failures_of(e) } else { failures_of(e) + line_of(e.len() as int, x) }),
         all_ok(e.push(x)) == (all_ok(e) && x.1),
@@ -96,6 +84,29 @@ pub proof fn lemma_failures_all_ok(e: Seq<Entry>)
         assert(e.last() == e[e.len() - 1]);
     }
 }
+} // mod collector_spec
+pub use collector_spec::*;
+
+#[verifier::external_body]
+pub fn verif_fmt_ok(counter: i32, msg: &str) -> (r: String)
+    ensures r@ == spec_fmt_ok(counter, msg@)
+{ format!("{} - OK: {}\n", counter, msg) }
+
+#[verifier::external_body]
+pub fn verif_fmt_not_ok(counter: i32, msg: &str) -> (r: String)
+    ensures r@ == spec_fmt_not_ok(counter, msg@)
+{ format!("{} - NOT OK: {}\n", counter, msg) }
+
+// Representation relation: collector `c` holds exactly the entries `e`.
+pub open spec fn repr(c: AssertCollector, e: Seq<Entry>) -> bool {
+    &&& c.counter == e.len()
+    &&& c.success == all_ok(e)
+    &&& c.summary@ =~= summary_of(e)
+    &&& c.failures@ =~= failures_of(e)
+}
+
+// used by every contract below that appends an entry (keeps the extracted bodies free of proof hints)
+broadcast use collector_spec::lemma_entries_push;
 
 //@ extract src/build/mod.rs :: impl AssertCollector :: fn new
 //@   ret r
@@ -124,15 +135,9 @@ pub proof fn lemma_failures_all_ok(e: Seq<Entry>)
             // abstract: exactly one entry (msg, is_success) is appended, nothing recorded earlier changes
             forall|e: Seq<Entry>| #[trigger] repr(*old(self), e) ==> repr(*final(self), e.push((msg@, is_success))),
 //@   >>>
-//@   after "self.counter += 1;" <<<
-        proof {
-            assert forall|e: Seq<Entry>| #[trigger] repr(*old(self), e) implies repr(*self, e.push((msg@, is_success))) by {
-                lemma_entries_push(e, (msg@, is_success));
-            }
-        }
-//@   >>>
 //@   mutant rec_success_kept "self.success = false;" => "self.success = true;" expect record_assert_result
 //@   mutant rec_counter_two "self.counter += 1;" => "self.counter += 2;" expect record_assert_result
 //@   mutant rec_failures_dropped "self.failures.push_str(&msg);" => "" expect record_assert_result
 //@   mutant rec_branch_swapped "if !is_success" => "if is_success" expect record_assert_result
+//@   mutant rec_wrong_label "verif_fmt_not_ok(self.counter, msg)" => "verif_fmt_ok(self.counter, msg)" expect record_assert_result
 //@ end
